@@ -52,6 +52,7 @@ def run(ctx):
     vlib.mc_check(ctx, "FaultProto", "FaultProto.cfg", timeout=120, workers=4, coverage=True)
     vlib.mc_check(ctx, "FaultProto", "FaultProto_negF5.cfg", expect_violation="OkCommitIsComplete", timeout=120, workers=4)
     vlib.mc_check(ctx, "FaultProto", "FaultProto_negF40.cfg", expect_violation="DiskIsSomeCommit", timeout=120, workers=4)
+    vlib.mc_check(ctx, "FaultProto", "FaultProto_negS21.cfg", expect_violation="NoStuckProducer", timeout=120, workers=4)
     vlib.mc_check(ctx, "StorageProto", "StorageProto_negF45.cfg", expect_violation="NoSpuriousFailure", timeout=120, workers=2)
     # a failed meta.json replacement at the storage level: active metas replaced before the durable write (seeded C11-s9)
     vlib.mc_check(ctx, "StorageProto", "StorageProto_negS11.cfg", expect_violation="NeverDeletesNeeded", timeout=300, workers=4)
@@ -82,6 +83,17 @@ def run(ctx):
     rp = ctx.path("reuse.ndjson")
     vlib.run_bin("fault_driver", ["reuse", "--out", rp], timeout=120)
     ev += vlib.read_ndjson(rp)
+    # the storage stalls under the indexing worker until the pipeline is full and add_document blocks, then fails:
+    # the blocked call has to return (FaultProto: AddBlock / AddWake; a producer left waiting is a hang)
+    stp = ctx.path("stall.ndjson")
+    vlib.run_bin("fault_driver", ["stall", "--out", stp], timeout=300)
+    sev = vlib.read_ndjson(stp)
+    st = next((e for e in sev if e.get("ev") == "stall_state"), {})
+    ctx.cov["stalled_worker_full_pipeline"] = {"producer_blocked": bool(st.get("producer_blocked")), "accepted_before_blocking": st.get("accepted"),
+                                               "blocked_call_returned": any(e.get("ev") == "stall_result" for e in sev)}
+    if not st.get("producer_blocked"):
+        raise vlib.ToolError("stall scenario: the producer was never blocked on a full pipeline")
+    ev += [e for e in sev if e.get("ev") not in ("stamp_drawn",)]
     pairs = [(a, r) for a, r in zip(api_runs(ev), vlib.split_runs(ev)) if any(e["ev"] != "summary" for e in a)]
     runs = [a for a, _ in pairs]
     raws = [r for _, r in pairs]     # every storage operation and hook event of the run: kept next to a rejected run
